@@ -7,6 +7,11 @@ ALL = ["C%02d" % i for i in range(1, 21)]
 
 # id -> (level category, engine, technique, level text, level note, design ref)
 CLAIMED = {
+    "C19": ("exploration", "I",
+            "bounded-exhaustive enumeration over an in-memory HTTP network: every result list of <=2 (quick) / <=3 (thorough) results over 27 result kinds written by the real rwriter and read back by the real find client and raw JSON/NDJSON requests; 63 keys (5 hash functions x base58/hex/CID forms); every Accept header sequence of <=2 values over 9 values x both server preferences; 13 path shapes; every status 400..599 x 5 messages through apierror",
+            "Written-vs-read equality, one-document / one-result-per-line framing, 404-for-empty, 4xx API errors for bad negotiation, resource type and key, and error encode/decode are each compared with a specification on every enumerated request against the real server helper and client.",
+            "The find client sends no Accept header, so client read-back uses a JSON-preferring server (the strict server is checked with raw requests); net/http and encoding/json trusted.",
+            "DESIGN.md 6/C19"),
     "C10": ("exploration", "I",
             "bounded-exhaustive enumeration: message product (10 CIDs x every address list of <=3 over a 5-symbol alphabet x 5 extra-data values x orig peer) through CBOR and JSON; real HTTP sender (CBOR/JSON) and pubsub sender against receivers over an in-memory network; CBOR decoder fed every single-byte substitution, truncation, every CBOR header token at every offset singly and in pairs, lengths at/above every cap and all strings of <=2 bytes, in an isolated worker with allocation metering",
             "Round-trip equality, sender-to-receiver equality (decoded the way a receiver does) and decoder totality (no panic, no process death, allocation within input + 2 x 2 MiB + 256 KiB, accepted input survives re-encoding) are checked on every enumerated case of the real code.",
